@@ -1,0 +1,15 @@
+//go:build verif
+
+package grammar
+
+// VerifStep, when set, is called once per parser step, right after the step
+// counter has been incremented and before the budget is tested. It is only
+// compiled in with the "verif" build tag and only set by verification
+// harnesses running a single parse at a time.
+var VerifStep func(cnt uint64, expr any, offset int)
+
+func verifStep(cnt uint64, expr any, offset int) {
+	if VerifStep != nil {
+		VerifStep(cnt, expr, offset)
+	}
+}
